@@ -373,6 +373,40 @@ pub fn pinned_scenario(which: u64) -> stk2::Sc7 {
       partition_only: None,
       healed_items: vec![],
     },
+    12 => Sc7 {
+      // the well-known user-traffic port of the writer's participant is taken, so it listens elsewhere; a
+      // TransientLocal late joiner on the other participant asks for the history with ACKNACKs, which go to the
+      // unicast locator the WRITER was announced with
+      with_key: true,
+      nparts: 2,
+      eps: vec![EpSpec { tl: true, ..w.clone() }, EpSpec { tl: true, ..r.clone() }, EpSpec { tl: true, ..r.clone() }],
+      acts: vec![
+        Act::OccupyUserPort(0),
+        Act::Part(0),
+        Act::Sleep(300),
+        Act::Part(1),
+        Act::Topic(0),
+        Act::Topic(1),
+        Act::PubSub(0),
+        Act::PubSub(1),
+        Act::Ep(0),
+        Act::Ep(1),
+        Act::Early(0, vec![Item::Val { key: 1, n: 0, len: 10 }, Item::Val { key: 1, n: 1, len: 2049 }]),
+      ],
+      loss_disc_ppm: 0,
+      loss_ppm: 0,
+      main: vec![(0, Item::Val { key: 1, n: 2, len: 10 })],
+      late: 2,
+      late_new_part: false,
+      post: vec![(0, Item::Val { key: 1, n: 3, len: 10 })],
+      del: Del::Endpoint(1),
+      after: vec![(0, Item::Val { key: 1, n: 4, len: 10 })],
+      newcomer: None,
+      newcomer_items: vec![],
+      partition_s: 0,
+      partition_only: None,
+      healed_items: vec![],
+    },
     10 => Sc7 {
       // the second constellation of the open shared-TopicCache finding: a TransientLocal reader and a Volatile
       // reader of one TransientLocal writer on one participant, early samples, then traffic under 10 % loss
@@ -475,7 +509,7 @@ pub fn pinned_scenario(which: u64) -> stk2::Sc7 {
 }
 
 /// the pinned scenarios that are part of every run (5, 6 and 10 are developer probes only; 10 is an attempt at the second open constellation that does not reproduce it reliably)
-pub const PINNED_IDS: [u64; 8] = [1, 2, 3, 4, 7, 8, 9, 11];
+pub const PINNED_IDS: [u64; 9] = [1, 2, 3, 4, 7, 8, 9, 11, 12];
 pub const PINNED: u64 = PINNED_IDS.len() as u64;
 
 /// developer aid: one pinned scenario (VERIF_PROBE=1..4) with optional library logging (VERIF_PROBE_GREP)
